@@ -14,7 +14,7 @@ def wordof(rng, alph, lo=1, hi=5):
     return "".join(rng.choice(alph) for _ in range(rng.randint(lo, hi)))
 
 
-def make_records(rng, alph, jsonld_safe=False, nrec=None):
+def make_records(rng, alph, jsonld_safe=False, nrec=None, p_empty_uri=0.08):
     n = nrec or rng.choice([1, 2, 3, 4])
     pfx, uris, out = set(), set(), []
     for _ in range(n):
@@ -31,7 +31,7 @@ def make_records(rng, alph, jsonld_safe=False, nrec=None):
             return w
         p = fresh(pfx)
         u = "http://" + fresh(uris)
-        if not out and rng.random() < 0.08 and "" not in uris:
+        if not out and rng.random() < p_empty_uri and "" not in uris:
             uris.add("")
             u = ""                      # a record whose URI prefix is the empty string
         ps = [fresh(pfx) for _ in range(rng.choice([0, 0, 1, 2]))]
@@ -88,7 +88,8 @@ class C14(ProgramProperty):
         alph = UNICODE if fmt == "epm" else PRINTABLE
         if fmt == "jsonld":
             alph = [c for c in PRINTABLE]
-        recs = make_records(rng, alph, jsonld_safe=(fmt == "jsonld"))
+        # (an empty URI prefix is a legal namespace; JSON-LD writes it as "" resp. {"@id": ""}: a quarter of those cases have one)
+        recs = make_records(rng, alph, jsonld_safe=(fmt == "jsonld"), p_empty_uri=0.25 if fmt == "jsonld" else 0.08)
         syn = fmt in ("jsonld", "shacl") and rng.random() < 0.5
         expand = fmt == "jsonld" and rng.random() < 0.5
         build = [init_step(0, recs)]
